@@ -69,10 +69,11 @@ theorem asm_depth_limit (st : Static) (defs : Defs) (fuel : Nat) (ctx : RCtx) (t
 theorem hygienize_deepens (c : ECtx) : (hygienize c).depth = c.depth + 1 := rfl
 theorem deepened_deepens (c : ECtx) : c.deepened.depth = c.depth + 1 := rfl
 
-/-- **a block label is bound to the address at its own position** -/
+/-- **a block label is bound to the address at its own position** — and in the strict pass that position has to be a whole
+    address, as for a label written in place (finding F52, repaired: the address was always asked for with guessing allowed) -/
 theorem asm_label_is_address (st : Static) (defs : Defs) (fuel : Nat) (ctx : RCtx) (level : Nat) (name : String) (kind : SymKind)
     (ne : Bool) (ref : Option Nat) (rest : List AstNode) (ectx : ECtx) (labels : List (String × Value)) (cur : Nat) (result : BI)
-    (unstable : Bool) (a : Int) (ha : evalAddress defs { ctx with cur := cur } true = .ok a) :
+    (unstable : Bool) (a : Int) (ha : evalAddress defs { ctx with cur := cur } ({ ctx with cur := cur } : RCtx).canGuess = .ok a) :
     ∃ u, asmOnce st defs (fuel + 1) ctx (.symbol level name kind ne ref :: rest) ectx labels cur result unstable =
       asmOnce st defs fuel ctx rest ectx ((name, .int ⟨a, none⟩) :: labels.filter (·.1 != name)) cur result u := by
   simp only [asmOnce, ha]
